@@ -54,6 +54,15 @@ type Stack struct {
 
 var cfgMu sync.Mutex
 
+// RepoRoot is the source tree whose non-Go files (migrations) the run uses: /repo, unless bin/check was
+// pointed at a modified copy to try a seeded change.
+func RepoRoot() string {
+	if r := os.Getenv("VERIF_REPO"); r != "" {
+		return r
+	}
+	return "/repo"
+}
+
 // WorkDir returns the per-run scratch directory on tmpfs.
 func WorkDir() string {
 	d := os.Getenv("VERIF_WORK")
@@ -74,7 +83,7 @@ func BaseConfig() *config.AppConfig {
 		panic(err)
 	}
 	cfg := config.GetDefaultAppConfig()
-	cfg.Db.SchemaPath = "/repo/database/migrations"
+	cfg.Db.SchemaPath = RepoRoot() + "/database/migrations"
 	cfg.Logging.Level = "disabled"
 	return cfg
 }
